@@ -11,6 +11,7 @@ import (
 	"net"
 	"strings"
 	"sync"
+	"sync/atomic"
 
 	"google.golang.org/grpc"
 	"google.golang.org/grpc/codes"
@@ -30,6 +31,7 @@ import (
 const (
 	stampHeader = "x-stk-target"
 	userAgent   = "stk-ua"
+	holdMark    = "hold" // a request whose field sub says so is parked by the target (an idle in-flight call)
 )
 
 // rawCodec passes *[]byte through untouched and everything else through proto (the reflection service).
@@ -53,22 +55,29 @@ func (rawCodec) Unmarshal(b []byte, v any) error {
 func (rawCodec) Name() string { return "proto" }
 
 type target struct {
-	tid string
-	lis *bufconn.Listener
-	srv *grpc.Server
+	tid    string
+	noRefl bool
+	lis    *bufconn.Listener
+	srv    *grpc.Server
 
 	mu    sync.Mutex
 	files *protoregistry.Files
 	names []string
+	cur   contract
 	calls int
+
+	held        atomic.Int32  // calls currently parked by a "hold" request
+	reflHold    atomic.Bool   // reflection streams are parked on arrival while set
+	reflWaiting atomic.Int32  // reflection streams parked right now
+	reflRelease chan struct{} // closed to let the parked reflection streams go on
 }
 
 func newTarget(tid, refl string, c contract) (*target, error) {
-	t := &target{tid: tid, lis: bufconn.Listen(1 << 18)}
+	t := &target{tid: tid, noRefl: refl == "none", lis: bufconn.Listen(1 << 18)}
 	if err := t.setContract(c, 0); err != nil {
 		return nil, err
 	}
-	t.srv = grpc.NewServer(grpc.ForceServerCodec(rawCodec{}), grpc.UnknownServiceHandler(t.handle))
+	t.srv = grpc.NewServer(grpc.ForceServerCodec(rawCodec{}), grpc.UnknownServiceHandler(t.handle), grpc.StreamInterceptor(t.intercept))
 	opts := reflection.ServerOptions{Services: t, DescriptorResolver: t}
 	if refl == "v1" || refl == "both" {
 		reflv1.RegisterServerReflectionServer(t.srv, reflection.NewServerV1(opts))
@@ -86,9 +95,49 @@ func (t *target) setContract(c contract, gen int) error {
 		return err
 	}
 	t.mu.Lock()
-	t.files, t.names = files, names
+	t.files, t.names, t.cur = files, names, c
 	t.mu.Unlock()
 	return nil
+}
+
+// intercept parks reflection streams while reflHold is set: the resolver's poller is then in the middle of a resolution.
+func (t *target) intercept(srv any, ss grpc.ServerStream, info *grpc.StreamServerInfo, handler grpc.StreamHandler) error {
+	if strings.HasPrefix(info.FullMethod, "/grpc.reflection.") && t.reflHold.Load() {
+		t.mu.Lock()
+		release := t.reflRelease
+		t.mu.Unlock()
+		t.reflWaiting.Add(1)
+		select {
+		case <-release:
+		case <-ss.Context().Done():
+		}
+		t.reflWaiting.Add(-1)
+	}
+	return handler(srv, ss)
+}
+
+func (t *target) holdReflection() {
+	t.mu.Lock()
+	t.reflRelease = make(chan struct{})
+	t.mu.Unlock()
+	t.reflHold.Store(true)
+}
+
+func (t *target) releaseReflection() {
+	if t.reflHold.Swap(false) {
+		t.mu.Lock()
+		close(t.reflRelease)
+		t.mu.Unlock()
+	}
+}
+
+func (t *target) sentinelOf() (service, bool) {
+	t.mu.Lock()
+	defer t.mu.Unlock()
+	if t.noRefl {
+		return service{}, false
+	}
+	return t.cur.sentinel()
 }
 
 func (t *target) stop() {
@@ -155,6 +204,13 @@ func (t *target) handle(_ any, ss grpc.ServerStream) error {
 	var in []byte
 	if err := ss.RecvMsg(&in); err != nil {
 		return err
+	}
+	if m, ok := decodeMsg(in); ok && m.sub == holdMark {
+		// an in-flight call: the target stays idle until the call is ended from the other side
+		t.held.Add(1)
+		defer t.held.Add(-1)
+		<-ss.Context().Done()
+		return status.Error(codes.Canceled, "stack target: held call ended")
 	}
 	out := append([]byte(nil), in...)
 	out = protowire.AppendTag(out, 3, protowire.BytesType)
